@@ -146,7 +146,7 @@ func runC15(c *ctx) {
 			}
 		}
 	}
-	hostile := []string{`"><script>alert(1)</script>`, `javascript:alert(1)`, `'onmouseover='x`, `</a><img src=x onerror=y>`, `%22%3E%3Cscript%3E`, "\"\n<b>"}
+	hostile := []string{`"><script>alert(1)</script>`, `javascript:alert(1)`, `'onmouseover='x`, `</a><img src=x onerror=y>`, `%22%3E%3Cscript%3E`, "\"\n<b>", "ABSFORM:javascript", "ABSFORM:data", "ABSFORM:vbscript"}
 	hrefRe := regexp.MustCompile(`href="([^"]*)"`)
 	for _, hs := range hostile {
 		for _, ep := range []string{"/oauth2/callback", "/oauth2/logout/callback", "/oauth2/login"} {
@@ -154,6 +154,10 @@ func runC15(c *ctx) {
 			var resp *response
 			hdr := http.Header{"X-Correlation-Id": {hs}, "X-Request-Id": {hs}, "Referer": {"http://wonderwall/" + hs}}
 			target := "http://wonderwall" + ep + "?state=" + urlQueryEscape(hs) + "&redirect=" + urlQueryEscape(hs) + "&error=" + urlQueryEscape(hs)
+			if strings.HasPrefix(hs, "ABSFORM:") {
+				// absolute-form request target (RFC 9112 §3.2.2) with a script scheme: whatever the error page links to must not carry it
+				target = strings.TrimPrefix(hs, "ABSFORM:") + "://wonderwall" + ep + "?state=x&error=y&%0aalert(1)"
+			}
 			for k := 0; k < 6; k++ {
 				req, ok := safeRequest("GET", target)
 				if !ok {
